@@ -154,8 +154,8 @@ let response_key a n = match a with Some x -> sb x | None -> sb n
 
 (* ---------------------------------------------------------------- translation  real plan -> dfield2 list *)
 type translated = {
-  t_vds : vardef list; t_sup : (bytes * json) list; t_sc0 : schema; t_sc0name : string; t_tn : bool;
-  t_ds2 : dfield2 list; t_root : rfetch; t_ents : (string * rfetch) list; t_nontrivial : bool;
+  t_vds : vardef list; t_sup : (bytes * json) list; t_tn : bool;
+  t_ds2 : dfield2 list; t_roots : rfetch list; t_ents : (string * rfetch) list; t_nontrivial : bool;
 }
 
 (* the entity request:  query($representations: [_Any!]!, ...){_entities(representations: $representations){... on T {sel}}} *)
@@ -186,7 +186,16 @@ let repr_fields (f : rfetch) (t : string) : string list =
                | _ -> raise (Outside "representation_shape"))) flds
         | _ -> raise (Outside "representation_shape"))
      | _ -> raise (Outside "representation_shape"))
-  | _ -> raise (Outside "representation_shape")
+  | [] -> raise (Outside "representation_shape")
+  | _ -> raise (Outside "several_representation_templates")
+
+let index_of_sub (subs : (string * schema) list) (n : string) : int option =
+  let rec go i = function [] -> None | (m, _) :: r -> if m = n then Some i else go (i + 1) r in go 0 subs
+
+let root_field_keys (f : rfetch) : string list =
+  match f.f_doc with
+  | Some [DOp o] -> List.filter_map (function SField (a, n, _, _, _) -> Some (response_key a n) | _ -> None) o.op_sels
+  | _ -> []
 
 let translate (super : schema) (subs : (string * schema) list) (op : document) (vars : json) (fetches : rfetch list) : translated =
   let o = match op with
@@ -199,38 +208,47 @@ let translate (super : schema) (subs : (string * schema) list) (op : document) (
     | SSpread _ -> false in
   if List.exists internal o.op_sels then raise (Outside "internal_typename_placeholder");
   if o.op_dirs <> [] then raise (Outside "op_directive");
+  (* a selection on an interface / union typed field: the planner adds __typename to the subgraph request *)
+  let is_abstract tn = (match find_type_s super tn with Some { td_kind = (KInterface | KUnion); _ } -> true | _ -> false) in
+  let rec named = function TNamed n -> sb n | TList t | TNonNull t -> named t in
+  let rec abstract_in (ty : string) (s : selection) = match s with
+    | SField (_, n, _, _, ss) ->
+      if ss = [] then false else
+        (match field_type super ty (sb n) with
+         | Some t -> let tn = named t in is_abstract tn || List.exists (abstract_in tn) ss
+         | None -> false)
+    | SInline (Some c, _, ss) -> (sb c <> ty) || List.exists (abstract_in (sb c)) ss
+    | SInline (None, _, ss) -> List.exists (abstract_in ty) ss
+    | SSpread _ -> false in
+  if List.exists (abstract_in (sb super.s_query)) o.op_sels then raise (Outside "abstract_selection");
   let sup = match vars with JObj m -> m | _ -> [] in
   (* fetch kinds; every feature of the plan outside the fragment is reported, not only the first *)
   let feats = ref [] in
   let feat f = if not (List.mem f !feats) then feats := f :: !feats in
   List.iter (fun f ->
       match f.f_kind with
-      | "single" | "entity" -> ()
-      | "batch" -> feat "list_entity_fetch"
+      | "single" | "entity" | "batch" -> ()
       | k -> feat ("fetch_kind:" ^ k)) fetches;
   let roots = List.filter (fun f -> f.f_kind = "single" && f.f_deps = [] && f.f_path = "") fetches in
   let others = List.filter (fun f -> not (List.memq f roots)) fetches in
   List.iter (fun f -> if f.f_kind = "single" then feat "dependent_single_fetch") others;
-  (match roots with [_] -> () | [] -> feat "no_root_fetch" | _ -> feat "multi_root_subgraph");
+  if roots = [] then feat "no_root_fetch";
   let root_ids = List.map (fun f -> f.f_id) roots in
   List.iter (fun f ->
-      if not (List.for_all (fun d -> List.mem d root_ids) f.f_deps) || List.length f.f_fetchpath > 1 then feat "nested_fetch"
+      if not (List.for_all (fun d -> List.mem d root_ids) f.f_deps) then feat "fetch_chain"
+      else if List.length f.f_fetchpath > 1 then feat "nested_position"
       else if List.length f.f_deps > 1 then feat "fetch_depends_on_several_roots") others;
   (let ps = List.map (fun f -> f.f_path) others in
    if List.length (List.sort_uniq compare ps) <> List.length ps then feat "several_fetches_at_one_field");
+  (let rs = List.map (fun f -> f.f_sub) roots in
+   if List.length (List.sort_uniq compare rs) <> List.length rs then feat "two_root_fetches_on_one_subgraph");
   if !feats <> [] then raise (Outside (String.concat "+" (List.sort compare !feats)));
-  let root = List.hd roots in
-  let sc0 = match List.assoc_opt root.f_sub subs with Some s -> s | None -> raise (Outside "introspection_or_unknown_datasource") in
+  List.iter (fun f -> if index_of_sub subs f.f_sub = None then raise (Outside "introspection_or_unknown_datasource")) fetches;
   let ents = List.map (fun f ->
-      if f.f_deps <> [root.f_id] then raise (Outside "nested_fetch");
       (match f.f_fetchpath with
-       | [("object", [k], _)] when k = f.f_path -> ()
-       | [("object", _, _)] -> raise (Outside "nested_fetch")
+       | [(("object" | "array"), [k], _)] when k = f.f_path -> ()
        | _ -> raise (Outside "nested_fetch"));
       (f.f_path, f)) others in
-  let keys = List.map fst ents in
-  if List.length (List.sort_uniq compare keys) <> List.length keys then raise (Outside "several_fetches_at_one_field");
-  (* does every entity selection start with __typename? *)
   let ent_parts = List.map (fun (k, f) ->
       match f.f_doc with
       | Some d -> let (t, sel) = entity_doc_parts d in (k, (f, t, sel))
@@ -238,7 +256,8 @@ let translate (super : schema) (subs : (string * schema) list) (op : document) (
   let starts_tn sel = match sel with SField (None, n, [], [], []) :: _ when sb n = "__typename" -> true | _ -> false in
   let tn = ent_parts <> [] && List.for_all (fun (_, (_, _, sel)) -> starts_tn sel) ent_parts in
   if not tn && List.exists (fun (_, (_, _, sel)) -> starts_tn sel) ent_parts then raise (Translate "mixed_typename_prefix");
-  (* root fields *)
+  (* which root fetch resolves which root field *)
+  let root_of_key = List.concat_map (fun f -> List.map (fun k -> (k, f)) (root_field_keys f)) roots in
   let seen = Hashtbl.create 8 in
   let ds2 = List.map (fun s ->
       match s with
@@ -248,19 +267,31 @@ let translate (super : schema) (subs : (string * schema) list) (op : document) (
         let key = response_key a n in
         if Hashtbl.mem seen key then raise (Outside "root_duplicate_key");
         Hashtbl.add seen key ();
+        let rootf = match List.filter (fun (k, _) -> k = key) root_of_key with
+          | [(_, f)] -> f
+          | [] -> raise (Translate ("no_root_fetch_for_field:" ^ key))
+          | _ -> raise (Outside "root_field_in_several_root_fetches") in
+        let ri = match index_of_sub subs rootf.f_sub with Some i -> i | None -> raise (Translate "unknown_subgraph") in
         (match List.assoc_opt key ent_parts with
-         | None -> { d2_alias = a; d2_name = n; d2_args = args; d2_nn = false; d2_sel = List.map (fun x -> (false, x)) ss; d2_fetch = None }
+         | None -> { d2_alias = a; d2_name = n; d2_args = args; d2_shape = ShObj false; d2_root = nat_of_int ri;
+                     d2_sel = List.map (fun x -> (false, x)) ss; d2_fetch = None }
          | Some (f, t, sel) ->
-           let nn = match field_type super (sb super.s_query) (sb n) with
-             | Some (TNamed t') when sb t' = t -> false
-             | Some (TNonNull (TNamed t')) when sb t' = t -> true
-             | Some (TNamed t') | Some (TNonNull (TNamed t')) ->
-               (match find_type_s super (sb t') with
-                | Some { td_kind = KObject; _ } -> raise (Translate "entity_type_differs_from_field_type")
-                | _ -> raise (Outside "abstract_root_field"))
-             | Some _ -> raise (Outside "list_root_field")
+           if f.f_deps <> [rootf.f_id] then raise (Translate "entity_fetch_does_not_depend_on_its_root_fetch");
+           let is_obj t' = (match find_type_s super (sb t') with Some { td_kind = KObject; _ } -> true | _ -> false) in
+           let bad t' = if is_obj t' then raise (Translate "entity_type_differs_from_field_type") else raise (Outside "abstract_root_field") in
+           let shape = match field_type super (sb super.s_query) (sb n) with
+             | Some (TNamed t') -> if sb t' = t then ShObj false else bad t'
+             | Some (TNonNull (TNamed t')) -> if sb t' = t then ShObj true else bad t'
+             | Some (TList (TNamed t')) -> if sb t' = t then ShList (false, false) else bad t'
+             | Some (TList (TNonNull (TNamed t'))) -> if sb t' = t then ShList (false, true) else bad t'
+             | Some (TNonNull (TList (TNamed t'))) -> if sb t' = t then ShList (true, false) else bad t'
+             | Some (TNonNull (TList (TNonNull (TNamed t')))) -> if sb t' = t then ShList (true, true) else bad t'
+             | Some _ -> raise (Outside "nested_list_root_field")
              | None -> raise (Translate "unknown_root_field") in
-           let sub = match List.assoc_opt f.f_sub subs with Some s -> s | None -> raise (Translate "unknown_subgraph") in
+           (match shape, f.f_kind with
+            | ShObj _, "entity" | ShList _, "batch" -> ()
+            | _ -> raise (Translate "fetch_kind_does_not_match_field_type"));
+           let si = match index_of_sub subs f.f_sub with Some i -> i | None -> raise (Translate "unknown_subgraph") in
            let selB = if tn then List.tl sel else sel in
            (* tag the client's selections: those the entity fetch asks for, in its order *)
            let rest = ref selB in
@@ -272,56 +303,195 @@ let translate (super : schema) (subs : (string * schema) list) (op : document) (
            let fields = repr_fields f t in
            (match fields with
             | "__typename" :: ks ->
-              { d2_alias = a; d2_name = n; d2_args = args; d2_nn = nn; d2_sel = tagged;
-                d2_fetch = Some ((sub, bs t), List.map bs ks) }
+              { d2_alias = a; d2_name = n; d2_args = args; d2_shape = shape; d2_root = nat_of_int ri; d2_sel = tagged;
+                d2_fetch = Some ((nat_of_int si, bs t), List.map bs ks) }
             | _ -> raise (Translate "representation_without_typename")))
       | SInline _ -> raise (Outside "root_inline_fragment")
       | SSpread _ -> raise (Outside "root_fragment_spread")) o.op_sels in
   List.iter (fun (k, _) -> if not (Hashtbl.mem seen k) then raise (Outside "nested_fetch")) ents;
-  { t_vds = o.op_vars; t_sup = sup; t_sc0 = sc0; t_sc0name = root.f_sub; t_tn = tn; t_ds2 = ds2; t_root = root; t_ents = ents;
-    t_nontrivial = ents <> [] }
+  { t_vds = o.op_vars; t_sup = sup; t_tn = tn; t_ds2 = ds2; t_roots = roots; t_ents = ents; t_nontrivial = ents <> [] }
 
-(* ---------------------------------------------------------------- why the validator said no *)
-let diagnose sc vds sup sc0 g0 kq decls rdecls tn (ds2 : dfield2 list) : string =
-  let ds = List.map to_dfield ds2 in
+(* ---------------------------------------------------------------- translation  real plan -> plan TREE (rfield3 list) *)
+type translated3 = {
+  t3_vds : vardef list; t3_sup : (bytes * json) list; t3_tn : bool;
+  t3_ds : rfield3 list; t3_roots : rfetch list; t3_others : rfetch list; t3_depth : int;
+}
+
+let path_of (f : rfetch) : string list = List.concat_map (fun (_, p, _) -> p) f.f_fetchpath
+let rec is_prefix a b = match a, b with [], _ -> true | x :: a', y :: b' -> x = y && is_prefix a' b' | _ -> false
+
+let sel_key_s (s : selection) = match s with SField (a, n, _, _, _) -> response_key a n | _ -> ""
+
+let translate3 (super : schema) (subs : (string * schema) list) (op : document) (vars : json) (fetches : rfetch list) : translated3 =
+  let o = match op with [DOp o] -> o | _ -> raise (Outside "op_shape") in
+  if o.op_kind <> OpQuery then raise (Outside "op_kind");
+  let rec internal (s : selection) = match s with
+    | SField (Some a, _, _, _, ss) -> (String.length (sb a) >= 10 && String.sub (sb a) 0 10 = "__internal") || List.exists internal ss
+    | SField (None, _, _, _, ss) | SInline (_, _, ss) -> List.exists internal ss
+    | SSpread _ -> false in
+  if List.exists internal o.op_sels then raise (Outside "internal_typename_placeholder");
+  if o.op_dirs <> [] then raise (Outside "op_directive");
+  let is_abstract tn = (match find_type_s super tn with Some { td_kind = (KInterface | KUnion); _ } -> true | _ -> false) in
+  let rec named0 = function TNamed n -> sb n | TList t | TNonNull t -> named0 t in
+  let rec abstract_in (ty : string) (s : selection) = match s with
+    | SField (_, n, _, _, ss) ->
+      if ss = [] then false else
+        (match field_type super ty (sb n) with
+         | Some t -> let tn = named0 t in is_abstract tn || List.exists (abstract_in tn) ss
+         | None -> false)
+    | SInline (Some c, _, ss) -> (sb c <> ty) || List.exists (abstract_in (sb c)) ss
+    | SInline (None, _, ss) -> List.exists (abstract_in ty) ss
+    | SSpread _ -> false in
+  if List.exists (abstract_in (sb super.s_query)) o.op_sels then raise (Outside "abstract_selection");
+  let sup = match vars with JObj m -> m | _ -> [] in
+  let feats = ref [] in
+  let feat f = if not (List.mem f !feats) then feats := f :: !feats in
+  List.iter (fun f -> match f.f_kind with "single" | "entity" | "batch" -> () | k -> feat ("fetch_kind:" ^ k)) fetches;
+  let roots = List.filter (fun f -> f.f_kind = "single" && f.f_deps = [] && f.f_path = "") fetches in
+  let others = List.filter (fun f -> not (List.memq f roots)) fetches in
+  List.iter (fun f -> if f.f_kind = "single" then feat "dependent_single_fetch") others;
+  if roots = [] then feat "no_root_fetch";
+  List.iter (fun f -> if List.length f.f_deps <> 1 then feat "fetch_depends_on_several_fetches") others;
+  (let rs = List.map (fun f -> f.f_sub) roots in
+   if List.length (List.sort_uniq compare rs) <> List.length rs then feat "two_root_fetches_on_one_subgraph");
+  if !feats <> [] then raise (Outside (String.concat "+" (List.sort compare !feats)));
+  List.iter (fun f -> if index_of_sub subs f.f_sub = None then raise (Outside "introspection_or_unknown_datasource")) fetches;
+  let ent_sel_of (f : rfetch) = match f.f_doc with Some d -> entity_doc_parts d | None -> raise (Outside "entity_doc_shape") in
+  let starts_tn sel = match sel with SField (None, n, [], [], []) :: _ when sb n = "__typename" -> true | _ -> false in
+  let tn = others <> [] && List.for_all (fun f -> starts_tn (snd (ent_sel_of f))) others in
+  if not tn && List.exists (fun f -> starts_tn (snd (ent_sel_of f))) others then raise (Translate "mixed_typename_prefix");
+  let used = ref [] in
+  let maxdepth = ref 0 in
+  let is_obj tn' = (match find_type_s super tn' with Some { td_kind = KObject; _ } -> true | _ -> false) in
+  (* the annotated sub-selection of the object of type [ty] at [path], produced by fetch [src] which was asked [src_sel] for it *)
+  let rec build_pt (depth : int) (ty : string) (client : selection list) (path : string list) (src : rfetch) (src_sel : selection list) : ptree =
+    if depth > !maxdepth then maxdepth := depth;
+    (* the sources of this position: 0 = src, then the entity fetches at this path, each reading its keys off an earlier source *)
+    let sources = ref [(src, src_sel)] in
+    let fentries = ref [] in
+    let progress = ref true in
+    while !progress do
+      progress := false;
+      List.iter (fun f ->
+          if path_of f = path && not (List.memq f !used) then
+            (match List.filter (fun (i, (g, _)) -> ignore i; f.f_deps = [g.f_id]) (List.mapi (fun i x -> (i, x)) !sources) with
+             | (from, _) :: _ ->
+               used := f :: !used; progress := true;
+               let (t, sel) = ent_sel_of f in
+               if t <> ty then raise (Outside "abstract_entity_fetch");
+               let selB = if tn then List.tl sel else sel in
+               let si = match index_of_sub subs f.f_sub with Some i -> i | None -> raise (Translate "unknown_subgraph") in
+               let ks = (match repr_fields f t with "__typename" :: ks -> ks | _ -> raise (Translate "representation_without_typename")) in
+               sources := !sources @ [(f, selB)];
+               fentries := !fentries @ [((nat_of_int from, nat_of_int si), List.map bs ks)]
+             | [] -> ())) others
+    done;
+    let below p = List.exists (fun f -> is_prefix p (path_of f) && path_of f <> p || path_of f = p) others in
+    let items = List.map (fun s ->
+        match s with
+        | SField (a, n, args, dirs, ss) ->
+          if dirs <> [] then raise (Outside "field_directive_at_fetch_position");
+          let key = response_key a n in
+          (* the first source that was asked for this response key *)
+          let rec find i = function
+            | [] -> raise (Translate ("no_source_for_field:" ^ String.concat "." (path @ [key])))
+            | (g, sel) :: r -> (match List.find_opt (fun x -> sel_key_s x = key) sel with Some x -> (i, g, x) | None -> find (i + 1) r) in
+          let (tag, g, x) = find 0 !sources in
+          let p' = path @ [key] in
+          if ss = [] || not (below p') then (nat_of_int tag, PKeep s)
+          else begin
+            let fty = (match field_type super ty (sb n) with Some t -> t | None -> raise (Translate "unknown_field")) in
+            let rec named = function TNamed t -> sb t | TList t | TNonNull t -> named t in
+            let t' = named fty in
+            if not (is_obj t') then raise (Outside "abstract_position");
+            let shape = match fty with
+              | TNamed _ -> ShObj false | TNonNull (TNamed _) -> ShObj true
+              | TList (TNamed _) -> ShList (false, false) | TList (TNonNull (TNamed _)) -> ShList (false, true)
+              | TNonNull (TList (TNamed _)) -> ShList (true, false) | TNonNull (TList (TNonNull (TNamed _))) -> ShList (true, true)
+              | _ -> raise (Outside "nested_list_field") in
+            let xsel = (match x with SField (_, _, _, _, xs) -> xs | _ -> []) in
+            (nat_of_int tag, PDown (a, n, args, shape, bs t', build_pt (depth + 1) t' ss p' g xsel))
+          end
+        | SInline _ -> raise (Outside "inline_fragment_at_fetch_position")
+        | SSpread _ -> raise (Outside "fragment_spread")) client in
+    PT (items, !fentries) in
+  let root_of_key = List.concat_map (fun f -> List.map (fun k -> (k, f)) (root_field_keys f)) roots in
+  let seen = Hashtbl.create 8 in
+  let ds = List.map (fun s ->
+      match s with
+      | SField (a, n, args, dirs, ss) ->
+        if dirs <> [] then raise (Outside "root_directive");
+        if sb n = "__typename" then raise (Outside "root_typename");
+        let key = response_key a n in
+        if Hashtbl.mem seen key then raise (Outside "root_duplicate_key");
+        Hashtbl.add seen key ();
+        let rootf = match List.filter (fun (k, _) -> k = key) root_of_key with
+          | [(_, f)] -> f
+          | [] -> raise (Translate ("no_root_fetch_for_field:" ^ key))
+          | _ -> raise (Outside "root_field_in_several_root_fetches") in
+        let ri = match index_of_sub subs rootf.f_sub with Some i -> i | None -> raise (Translate "unknown_subgraph") in
+        let below = List.exists (fun f -> is_prefix [key] (path_of f)) others in
+        if ss = [] || not below then { r3_root = nat_of_int ri; r3_item = PKeep s }
+        else begin
+          let fty = (match field_type super (sb super.s_query) (sb n) with Some t -> t | None -> raise (Translate "unknown_root_field")) in
+          let rec named = function TNamed t -> sb t | TList t | TNonNull t -> named t in
+          let t' = named fty in
+          if not (is_obj t') then raise (Outside "abstract_root_field");
+          let shape = match fty with
+            | TNamed _ -> ShObj false | TNonNull (TNamed _) -> ShObj true
+            | TList (TNamed _) -> ShList (false, false) | TList (TNonNull (TNamed _)) -> ShList (false, true)
+            | TNonNull (TList (TNamed _)) -> ShList (true, false) | TNonNull (TList (TNonNull (TNamed _))) -> ShList (true, true)
+            | _ -> raise (Outside "nested_list_root_field") in
+          let rsel = (match rootf.f_doc with
+              | Some [DOp ro] -> (match List.find_opt (fun x -> sel_key_s x = key) ro.op_sels with Some (SField (_, _, _, _, xs)) -> xs | _ -> [])
+              | _ -> []) in
+          { r3_root = nat_of_int ri; r3_item = PDown (a, n, args, shape, bs t', build_pt 1 t' ss [key] rootf rsel) }
+        end
+      | SInline _ -> raise (Outside "root_inline_fragment")
+      | SSpread _ -> raise (Outside "root_fragment_spread")) o.op_sels in
+  List.iter (fun f -> if not (List.memq f !used) then raise (Translate ("fetch_not_placed:" ^ f.f_path))) others;
+  { t3_vds = o.op_vars; t3_sup = sup; t3_tn = tn; t3_ds = ds; t3_roots = roots; t3_others = others; t3_depth = !maxdepth }
+
+(* ---------------------------------------------------------------- why the validator said no: the failed hypothesis *)
+let diagnose sc (subsl : schema list) vds sup g0 kq decls rdecls tn (ds2 : dfield2 list) : string =
   let vars = pvars vds sup in
   let q = sc.s_query in
-  if not (config_wf_b sc sc0) then "config_wf_b(root subgraph)" else
-  if not (keys_distinct (List.map root_sel ds)) then "keys_distinct" else
-  if not (List.for_all (fun vd -> not_repr vd.vd_name) vds) then "variable named representations" else
-    let rec go ds ds2 =
-      match ds, ds2 with
-      | d :: r, d2 :: r2 ->
-        let key = response_key d.df_alias d.df_name in
-        if not (field_static_b sc [] vds sup sc0 g0 kq decls rdecls d) then begin
-          if not (sels_noent [root_sel d]) then key ^ ":sels_noent(root)" else
-          if not (req_ok_b sc0 [] vars (fun _ -> true) kq q [root_sel d]) then key ^ ":req_ok_b(root request not executable on the root subgraph)" else
-            match d.df_fetch with
-            | None -> key ^ ":field_static_b"
-            | Some phi ->
-              let t = phi.ef_T in
-              let fa = flat_of sc [] vds sup g0 t d.df_selA and fb = flat_of sc [] vds sup g0 t phi.ef_sel in
-              if not (config_wf_b sc phi.ef_sub) then key ^ ":config_wf_b(entity subgraph)" else
-              if not (req_ok_b phi.ef_sub [] vars not_repr kq t phi.ef_sel) then key ^ ":req_ok_b(entity request not executable on its subgraph)" else
-              if not (flat_okb sc [] vds sup g0 t d.df_selA && flat_okb sc [] vds sup g0 t phi.ef_sel) then key ^ ":flat_okb" else
+  let nsub = List.length subsl in
+  if not (List.for_all (config_wf_b sc) subsl) then "config_wf_b(a subgraph schema is not a projection of the supergraph)" else
+  if not (names_distinct (List.map d2_key ds2)) then "names_distinct(root response keys)" else
+  if not (List.for_all (fun vd -> not_repr vd.vd_name) vds) then "not_repr(a client variable is named representations)" else
+    let rec go = function
+      | d :: r ->
+        let key = sb (d2_key d) in
+        if field2_static_b sc subsl [] vds sup g0 kq decls rdecls tn d then
+          (if order_ok_b sc [] vds sup g0 d then go r else key ^ ":order_ok_b(the client's sub-selection does not flatten)")
+        else begin
+          let ri = int_of_nat d.d2_root in
+          if ri >= nsub then key ^ ":root index" else
+          if not (sels_noent [root_sel2 d]) then key ^ ":sels_noent(root)" else
+          if not (req_ok_b (sub_at sc subsl d.d2_root) [] vars (fun _ -> true) kq q [root_sel2 d]) then
+            key ^ ":req_ok_b(the root request is not executable on its subgraph)" else
+            match d.d2_fetch with
+            | None -> key ^ ":field2_static_b"
+            | Some ((si, t), ks) ->
+              let sa = d2_selA d and sb' = d2_selB d in
+              let fa = flat_of sc [] vds sup g0 t sa and fb = flat_of sc [] vds sup g0 t sb' in
+              if int_of_nat si >= nsub then key ^ ":entity subgraph index" else
+              (if not (req_ok_b (sub_at sc subsl si) [] vars not_repr kq t sb') then key ^ ":req_ok_b(the entity request is not executable on its subgraph)" else
+              if not (flat_okb sc [] vds sup g0 t sa && flat_okb sc [] vds sup g0 t sb') then key ^ ":flat_okb" else
               if not (keys_disjoint fa fb) then key ^ ":keys_disjoint(root part and fetched part share a response key)" else
-              if not (keys_unaliased phi.ef_ks fa) then key ^ ":keys_unaliased(a client alias hides a key field)" else
-              if not (key_declared decls t phi.ef_ks) then key ^ ":key_declared(representation fields [" ^ String.concat " " (List.map sb phi.ef_ks) ^ "] are not a declared key of " ^ sb t ^ ")" else
-              if not (reqs_static_b rdecls t fb phi.ef_ks) then key ^ ":reqs_static_b(@requires inputs not in the representation)" else
-              if not (sels_noent phi.ef_sel) then key ^ ":sels_noent(entity)" else
-                key ^ ":fetch_static_b(type of the field / kind of the entity type)"
+              if not (keys_unaliased ks fa) then key ^ ":keys_unaliased(a client alias hides a representation field)" else
+              if not (key_covered decls t ks) then key ^ ":key_covered(representation fields [" ^ String.concat " " (List.map sb ks) ^ "] contain no declared key of " ^ sb t ^ ")" else
+              if not (repr_fields_ok decls rdecls t ks) then key ^ ":repr_fields_ok(a representation field of [" ^ String.concat " " (List.map sb ks) ^ "] is neither a key field nor a declared @requires input of " ^ sb t ^ ")" else
+              if not (reqs_static_b rdecls t fb ks) then key ^ ":reqs_static_b(@requires inputs not in the representation)" else
+              if not (sels_noent sb') then key ^ ":sels_noent(entity)" else
+              if tn && not (sels_top_nokey (bs "__typename") sb') then key ^ ":sels_top_nokey(the fetched part selects __typename itself)" else
+                key ^ ":fetch2_static_b(type of the field / kind of the entity type)")
         end
-        else if not (field2_shape_b tn d2) then
-          (match d2.d2_fetch with
-           | None -> key ^ ":shape(untagged)"
-           | Some _ -> key ^ ":pending(" ^ (if tn then "hidden_typename" else "client_order") ^ ")")
-        else go r r2
-      | _, _ -> "plan_static_b" in
-    go ds ds2
+      | [] -> "tv2_static_b" in
+    go ds2
 
 (* ---------------------------------------------------------------- one pair *)
-let get_member k m = match List.assoc_opt (bs k) m with Some v -> v | None -> JNull
-
 let handle (x : sexp) : (string * string) list =
   match x with
   | L (A "c01p" :: id :: rest) ->
@@ -337,6 +507,7 @@ let handle (x : sexp) : (string * string) list =
     let cfind tag = List.find (function L (A t :: _) when t = tag -> true | _ -> false) config in
     let super = match cfind "super" with L [_; s] -> schema_of s | _ -> raise (Sexp_error "super") in
     let subs = match cfind "subs" with L (_ :: l) -> List.map (function L [S n; s] -> (n, schema_of s) | _ -> raise (Sexp_error "sub")) l | _ -> [] in
+    let subsl = List.map snd subs in
     let decls = match cfind "keys" with L (_ :: l) -> List.map (function L [S t; ks] -> (bs t, List.map bs (strs ks)) | _ -> raise (Sexp_error "key")) l | _ -> [] in
     let rdecls = match cfind "requires" with
       | L (_ :: l) -> List.map (function L [S t; S f; rs] -> ((bs t, bs f), List.map bs (strs rs)) | _ -> raise (Sexp_error "requires")) l | _ -> [] in
@@ -360,99 +531,176 @@ let handle (x : sexp) : (string * string) list =
       | _ -> [] in
     let e2e_agree = List.for_all (fun r -> json_ueq r.u_gw r.u_mono && (r.u_gwerr > 0) = (r.u_monoerr > 0)) runs in
     let pair_tail = Printf.sprintf "(e2e %s %d)" (if e2e_agree then "agree" else "DISAGREE") (List.length runs) in
+    if Sys.getenv_opt "C01P_V3" = Some "1" then begin
+      try
+        let t = translate3 super subs op vars fetches in
+        let sz = int_of_nat (doc_size op) in
+        let out = ref [] in
+        let add st d = out := (st, d) :: !out in
+        let sub_name i = match List.nth_opt subs (int_of_nat i) with Some (n, _) -> n | None -> "?" in
+        let cd = client_doc3 t.t3_vds [] t.t3_ds in
+        let op_anon = List.map (function DOp o -> DOp { o with op_name = None } | d -> d) op in
+        if cd <> op_anon then add "mismatch" ("corr:C01p/client_doc3 (pair " ^ ids ^ ")");
+        let mreqs = model_requests3 t.t3_vds [] t.t3_tn t.t3_ds in
+        let real_doc f = match f.f_doc with Some d -> canon_doc d | None -> "" in
+        List.iter (fun mr ->
+            match mr with
+            | MRoot3 (g, doc) ->
+              (match List.filter (fun f -> f.f_sub = sub_name g) t.t3_roots with
+               | [f] -> if canon_doc doc <> real_doc f then
+                   add "mismatch" (Printf.sprintf "corr:C01p/plan_form3 (pair %s) root request to %s: model %s real %s" ids (sub_name g) (quote_string (canon_doc doc)) (quote_string (real_doc f)))
+               | _ -> add "mismatch" (Printf.sprintf "corr:C01p/plan_form3 (pair %s) no single real root fetch on %s" ids (sub_name g)))
+            | MEntity3 (path, si, doc, _rf) ->
+              let p = List.map sb path in
+              if not (List.exists (fun f -> path_of f = p && f.f_sub = sub_name si && canon_doc doc = real_doc f) t.t3_others) then
+                add "mismatch" (Printf.sprintf "corr:C01p/plan_form3 (pair %s) entity request at %s to %s: model %s has no real counterpart; real at that path: %s" ids
+                                  (String.concat "." p) (sub_name si) (quote_string (canon_doc doc))
+                                  (String.concat " | " (List.map (fun f -> f.f_sub ^ ":" ^ real_doc f) (List.filter (fun f -> path_of f = p) t.t3_others))))) mreqs;
+        let n_ment = List.length (List.filter (function MEntity3 _ -> true | _ -> false) mreqs) in
+        if n_ment <> List.length t.t3_others then add "mismatch" (Printf.sprintf "corr:C01p/plan_form3 (pair %s) %d model entity fetches, %d real" ids n_ment (List.length t.t3_others));
+        List.iter (fun r ->
+            match find_entity r.u_uni super.s_query [] with
+            | None -> ()
+            | Some eQ ->
+              let fu = nat_of_int (8 * sz + 100) in
+              let (o, errs) = gateway3 r.u_uni super subsl [] t.t3_vds t.t3_sup eQ fu fu t.t3_tn (nat_of_int (2 * sz + 10)) t.t3_ds in
+              let mj = match o with Some l -> JObj l | None -> JNull in
+              if not (json_eqb mj r.u_gw) || (errs <> []) <> (r.u_gwerr > 0) then
+                add "mismatch" (Printf.sprintf "corr:C01p/gateway3 (pair %s) (uni %d) model %s errs %d gateway %s errs %d" ids r.u_idx
+                                  (sexp_of_json mj) (List.length errs) (sexp_of_json r.u_gw) r.u_gwerr)) runs;
+        add "ok" (Printf.sprintf "nt (pair %s (inside3) (depth %d) (fetches %d) %s)" ids t.t3_depth (List.length t.t3_others) pair_tail);
+        List.rev !out
+      with
+      | Outside feat -> [("ok", Printf.sprintf "tr (pair %s (outside %s) %s)" ids (quote_string feat) pair_tail)]
+      | Translate why -> [("mismatch", Printf.sprintf "corr:C01p/translate3 (pair %s) %s %s" ids (quote_string why) pair_tail)]
+    end else
     (try
        let t = translate super subs op vars fetches in
        let sz = int_of_nat (doc_size op) in
        let g0 = nat_of_int (2 * sz + 8) and kq = nat_of_int (sz + 8) in
-       let ds = List.map to_dfield t.t_ds2 in
+       let ds2 = t.t_ds2 in
        let nt = if t.t_nontrivial then "nt" else "tr" in
        let out = ref [] in
        let add st d = out := (st, d) :: !out in
+       let sub_name i = match List.nth_opt subs (int_of_nat i) with Some (n, _) -> n | None -> "?" in
        (* 3a: the client operation, verbatim *)
-       let cd = client_doc t.t_vds [] t.t_ds2 in
+       let cd = client_doc2 t.t_vds [] ds2 in
        let op_anon = List.map (function DOp o -> DOp { o with op_name = None } | d -> d) op in
        if cd <> op_anon then add "mismatch" ("corr:C01p/client_doc (pair " ^ ids ^ ") the translated fields do not reproduce the planner's operation");
        (* 3b: the model's requests are the real plan's requests *)
-       let mreqs = model_requests t.t_vds [] t.t_sc0 t.t_tn ds in
+       let mreqs = model_requests2 t.t_vds [] t.t_tn ds2 in
+       let real_doc f = match f.f_doc with Some d -> canon_doc d | None -> "" in
+       let n_mroot = ref 0 and n_ment = ref 0 in
        List.iter (fun mr ->
            match mr with
-           | MRoot (sub, doc) ->
-             let real = match t.t_root.f_doc with Some d -> canon_doc d | None -> "" in
-             if sub != t.t_sc0 || canon_doc doc <> real then
-               add "mismatch" (Printf.sprintf "corr:C01p/plan_form (pair %s) root request: model %s real %s" ids (quote_string (canon_doc doc)) (quote_string real))
-           | MEntity (key, sub, doc, rf) ->
+           | MRoot (g, doc) ->
+             incr n_mroot;
+             (match List.filter (fun f -> f.f_sub = sub_name g) t.t_roots with
+              | [f] -> if canon_doc doc <> real_doc f then
+                  add "mismatch" (Printf.sprintf "corr:C01p/plan_form (pair %s) root request to %s: model %s real %s" ids (sub_name g) (quote_string (canon_doc doc)) (quote_string (real_doc f)))
+              | _ -> add "mismatch" (Printf.sprintf "corr:C01p/plan_form (pair %s) no single real root fetch on %s" ids (sub_name g)))
+           | MEntity (key, si, doc, _rf, _isl) ->
+             incr n_ment;
              (match List.assoc_opt (sb key) t.t_ents with
               | None -> add "mismatch" ("corr:C01p/plan_form (pair " ^ ids ^ ") model entity fetch without a real one at " ^ sb key)
               | Some f ->
-                let real = match f.f_doc with Some d -> canon_doc d | None -> "" in
-                let subok = (match List.assoc_opt f.f_sub subs with Some s -> s == sub | None -> false) in
-                if not subok || canon_doc doc <> real then
-                  add "mismatch" (Printf.sprintf "corr:C01p/plan_form (pair %s) entity request at %s: model %s real %s" ids (sb key) (quote_string (canon_doc doc)) (quote_string real));
-                ignore rf)) mreqs;
-       let n_model_ents = List.length (List.filter (function MEntity _ -> true | _ -> false) mreqs) in
-       if n_model_ents <> List.length t.t_ents then add "mismatch" ("corr:C01p/plan_form (pair " ^ ids ^ ") number of entity fetches");
+                if f.f_sub <> sub_name si || canon_doc doc <> real_doc f then
+                  add "mismatch" (Printf.sprintf "corr:C01p/plan_form (pair %s) entity request at %s: model %s to %s real %s to %s" ids (sb key)
+                                    (quote_string (canon_doc doc)) (sub_name si) (quote_string (real_doc f)) f.f_sub))) mreqs;
+       if !n_mroot <> List.length t.t_roots then add "mismatch" ("corr:C01p/plan_form (pair " ^ ids ^ ") number of root fetches");
+       if !n_ment <> List.length t.t_ents then add "mismatch" ("corr:C01p/plan_form (pair " ^ ids ^ ") number of entity fetches");
        (* 4: the validator *)
-       let accepted = tv_static_b super [] t.t_vds t.t_sup t.t_sc0 g0 kq decls rdecls t.t_tn t.t_ds2 in
-       let plan_only = plan_static_b super [] t.t_vds t.t_sup t.t_sc0 g0 kq decls rdecls ds in
-       let why = if accepted then "" else diagnose super t.t_vds t.t_sup t.t_sc0 g0 kq decls rdecls t.t_tn t.t_ds2 in
+       let accepted = tv2_static_b super subsl [] t.t_vds t.t_sup g0 kq decls rdecls t.t_tn ds2 in
+       let why = if accepted then "" else diagnose super subsl t.t_vds t.t_sup g0 kq decls rdecls t.t_tn ds2 in
        (* 3c + contract, per run *)
        let in_contract = ref 0 in
+       let has_list = List.exists (fun d -> match d.d2_shape, d.d2_fetch with ShList _, Some _ -> true | _ -> false) ds2 in
        List.iter (fun r ->
-           let contract = univ_contract_b super decls rdecls (plan_subs t.t_sc0 ds) r.u_uni in
+           let contract = univ2_contract_b super subsl decls rdecls r.u_uni in
            if contract then incr in_contract;
-           (* requests: the root request, then one entity request per non-null entity root field *)
-           let real_root = List.filter (fun q -> q.r_sub = t.t_sc0name && (match q.r_doc with Some d -> canon_doc d = (match t.t_root.f_doc with Some d' -> canon_doc d' | None -> "") | None -> false)) r.u_reqs in
-           (match real_root with
-            | [] -> add "mismatch" (Printf.sprintf "corr:C01p/requests (pair %s) (uni %d) the root request was not sent" ids r.u_idx)
-            | rq :: _ ->
-              let data = match rq.r_resp with JObj m -> (match List.assoc_opt (bs "data") m with Some (JObj d) -> d | _ -> []) | _ -> [] in
-              let expected = List.filter_map (fun mr ->
-                  match mr with
-                  | MEntity (key, _, doc, rf) ->
-                    (match List.assoc_opt key data with
-                     | Some (JObj l1) ->
-                       let ks = List.tl rf in
-                       Some (canon_doc doc, JObj [(bs "representations", JArr [repr_from ks l1])], sb key)
-                     | _ -> None)
-                  | _ -> None) mreqs in
-              let real_ents = List.filter (fun q -> q != rq) r.u_reqs in
-              if List.length expected <> List.length real_ents then
-                add "mismatch" (Printf.sprintf "corr:C01p/requests (pair %s) (uni %d) model sends %d entity requests, the engine sent %d" ids r.u_idx (List.length expected) (List.length real_ents))
-              else
-                List.iter (fun (cdoc, vars, key) ->
+           (* requests: every root request, then one entity request per entity root field whose value is there *)
+           (* identical requests of one execution are sent once (single flight, property C11): the model's
+              requests and the engine's are compared as sets *)
+           let used = ref [] in
+           let take p = match List.filter (fun q -> p q && not (List.memq q !used)) r.u_reqs, List.filter p r.u_reqs with
+             | q :: _, _ -> used := q :: !used; Some q
+             | [], q :: _ -> Some q
+             | [], [] -> None in
+           let root_data = List.concat_map (fun mr ->
+               match mr with
+               | MRoot (g, doc) ->
+                 (match take (fun q -> q.r_sub = sub_name g && (match q.r_doc with Some d -> canon_doc d = canon_doc doc | None -> false)) with
+                  | None -> add "mismatch" (Printf.sprintf "corr:C01p/requests (pair %s) (uni %d) the root request to %s was not sent" ids r.u_idx (sub_name g)); []
+                  | Some rq -> (match rq.r_resp with JObj m -> (match List.assoc_opt (bs "data") m with Some (JObj d) -> d | _ -> []) | _ -> []))
+               | _ -> []) mreqs in
+           List.iter (fun mr ->
+               match mr with
+               | MEntity (key, si, doc, rf, is_list) ->
+                 let ks = List.tl rf in
+                 let reprs = match List.assoc_opt key root_data with
+                   | Some (JObj l1) when not is_list -> Some [repr_from ks l1]
+                   | Some (JArr xs) when is_list -> (match dedup (collect_reprs ks xs) with [] -> None | l -> Some l)
+                   | _ -> None in
+                 (match reprs with
+                  | None -> ()
+                  | Some rs ->
                     (* the engine forwards the variables the request uses; the model forwards all of the client's *)
-                    let vars_ok (rv : json) = match rv, vars with
-                      | JObj rm, JObj mm ->
+                    let vars_ok (rv : json) = match rv with
+                      | JObj rm ->
                         List.for_all (fun (k, v) ->
-                            if sb k = "representations" then (match List.assoc_opt k mm with Some v' -> json_ueq v v' | None -> false)
+                            if sb k = "representations" then json_ueq v (JArr rs)
                             else (match List.assoc_opt k t.t_sup with Some v' -> json_ueq v v' | None -> false)) rm
                         && List.mem_assoc (bs "representations") rm
-                      | _, _ -> false in
-                    if not (List.exists (fun q -> (match q.r_doc with Some d -> canon_doc d = cdoc | None -> false) && vars_ok q.r_vars) real_ents) then
-                      add "mismatch" (Printf.sprintf "corr:C01p/requests (pair %s) (uni %d) entity request at %s with variables %s was not sent" ids r.u_idx key (sexp_of_json vars))) expected);
-           (* the extracted run_plan on this universe *)
+                      | _ -> false in
+                    (match take (fun q -> q.r_sub = sub_name si && (match q.r_doc with Some d -> canon_doc d = canon_doc doc | None -> false) && vars_ok q.r_vars) with
+                     | Some _ -> ()
+                     | None -> add "mismatch" (Printf.sprintf "corr:C01p/requests (pair %s) (uni %d) entity request at %s with representations %s was not sent" ids r.u_idx (sb key) (sexp_of_json (JArr rs)))))
+               | _ -> ()) mreqs;
+           if List.length !used <> List.length r.u_reqs then
+             add "mismatch" (Printf.sprintf "corr:C01p/requests (pair %s) (uni %d) the engine sent %d requests, the model accounts for %d" ids r.u_idx (List.length r.u_reqs) (List.length !used));
+           (* the extracted gateway model on this universe *)
            (match find_entity r.u_uni super.s_query [] with
             | None -> ()
             | Some eQ ->
-              let fM = nat_of_int (4 * sz + 64) in
-              let f1 = plan_fuel g0 fM ds in
-              let f2 = nat_of_int (int_of_nat f1 + int_of_nat g0) in
-              if not t.t_tn then begin
-                let (o, errs) = run_plan r.u_uni super [] t.t_vds t.t_sup eQ f1 f2 (plan_of super [] t.t_vds t.t_sup t.t_sc0 g0 ds) in
+              if not has_list || accepted then begin
+                let fM = nat_of_int (4 * sz + 64) in
+                let f1 = plan2_fuel g0 fM ds2 in
+                let f2 = nat_of_int (int_of_nat f1 + int_of_nat g0) in
+                let (o, errs) = gateway2 r.u_uni super subsl [] t.t_vds t.t_sup eQ g0 f1 f2 t.t_tn ds2 in
                 let mj = match o with Some l -> JObj l | None -> JNull in
                 if not (json_ueq mj r.u_gw) || (errs <> []) <> (r.u_gwerr > 0) then
-                  add "mismatch" (Printf.sprintf "corr:C01p/run_plan (pair %s) (uni %d) (contract %b) model %s errs %d gateway %s errs %d" ids r.u_idx contract
+                  add "mismatch" (Printf.sprintf "corr:C01p/gateway_model (pair %s) (uni %d) (contract %b) model %s errs %d gateway %s errs %d" ids r.u_idx contract
                                     (sexp_of_json mj) (List.length errs) (sexp_of_json r.u_gw) r.u_gwerr)
               end);
            if accepted && contract && not (json_ueq r.u_gw r.u_mono && (r.u_gwerr > 0) = (r.u_monoerr > 0)) then
              add "mismatch" (Printf.sprintf "corr:C01p/accepted_but_differs (pair %s) (uni %d) gateway %s monolith %s" ids r.u_idx (sexp_of_json r.u_gw) (sexp_of_json r.u_mono))
          ) runs;
-       let summary = Printf.sprintf "(pair %s (inside) (accepted %b) (plan_static %b) (tn %b) (entity_fetches %d) (contract %d %d) %s%s)" ids accepted plan_only t.t_tn
-           (List.length t.t_ents) !in_contract (List.length runs) pair_tail (if why = "" then "" else " (why " ^ quote_string why ^ ")") in
+       (* self-test of the validator on this plan: three defects planted into the accepted translation must be refused
+          (wrong subgraph for the entity fetch -- unless that subgraph can answer it too --, a representation without its
+          key fields, a fetched field moved into the root request) *)
+       let mut_total = ref 0 and mut_rejected = ref 0 in
+       if accepted && t.t_nontrivial then begin
+         let nsub = List.length subsl in
+         let try_mut (ds' : dfield2 list) =
+           incr mut_total;
+           if not (tv2_static_b super subsl [] t.t_vds t.t_sup g0 kq decls rdecls t.t_tn ds') then incr mut_rejected in
+         List.iteri (fun i d ->
+             match d.d2_fetch with
+             | Some ((si, ty), ks) ->
+               let repl d' = List.mapi (fun j x -> if j = i then d' else x) ds2 in
+               try_mut (repl { d with d2_fetch = Some ((nat_of_int ((int_of_nat si + 1) mod nsub), ty), ks) });
+               try_mut (repl { d with d2_fetch = Some ((si, ty), []) });
+               let flipped = ref false in
+               let sel' = List.map (fun (b, x) -> if b && not !flipped then (flipped := true; (false, x)) else (b, x)) d.d2_sel in
+               try_mut (repl { d with d2_sel = sel' })
+             | None -> ()) ds2
+       end;
+       let summary = Printf.sprintf "(pair %s (inside) (accepted %b) (tn %b) (roots %d) (entity_fetches %d) (contract %d %d) (mutants %d %d) %s%s)" ids accepted t.t_tn
+           (List.length t.t_roots) (List.length t.t_ents) !in_contract (List.length runs) !mut_rejected !mut_total pair_tail (if why = "" then "" else " (why " ^ quote_string why ^ ")") in
+       let is_pending = (let i = try String.index why ':' with Not_found -> -1 in
+                         i >= 0 && String.length why >= i + 9 && String.sub why (i + 1) 8 = "pending(") in
        if accepted then add "ok" (nt ^ " " ^ summary)
-       else if String.length why > 0 && (let i = try String.index why ':' with Not_found -> -1 in
-                                         i >= 0 && String.length why >= i + 9 && String.sub why (i + 1) 8 = "pending(") then
-         add "ok" ("tr " ^ summary)
+       else if is_pending then add "ok" ("tr " ^ summary)
        else add "specfail" ("plan_ok/rejected-in-fragment " ^ summary);
        List.rev !out
      with
